@@ -6,6 +6,8 @@ def c05(tier):
     if tier == "quick":
         for t in TOPOS_QUICK:
             runs.append(H("c05_barriers", "plain", 40, t, timeout_per_case=30))
+        # SMT numbering: thread ids do not fill the sockets in order (0,0,1,1,0,0,1,1)
+        runs.append(H("c05_barriers", "plain", 48, "smt:2x2x2", timeout_per_case=30))
         runs.append(H("c05_barriers", "plain", 16, "12,12,8", cpus=4, timeout_per_case=60,
                       params=dict(maxphases=60, oversub=1)))
         runs.append(H("c05_barriers", "asan", 20, "4,4,4,4", timeout_per_case=60))
